@@ -39,6 +39,7 @@ type Engine struct {
 	findings  []Finding
 	missingContracts []string
 	closedFields     map[string]bool
+	specFields       map[string]bool
 }
 
 const pkgPath = "github.com/jwhited/corebgp"
